@@ -20,3 +20,5 @@ open PebblesVerif
 #print axioms C01_flat_list_instance
 #print axioms C01_flat_list_instance_dup
 #print axioms C01_flat_list_instance_empty
+#print axioms C01_find_selection_level_first
+#print axioms C01_find_selection_depth_first_shadowed
